@@ -148,6 +148,7 @@ def merge(ctx, tk):
     check_guard(ctx, "C16.b", f, sinks, Formulas([m]), lambda A: A["same_length"], ["same_length"],
                 "two run-length arrays are combined only after refusing unless they have the same length", fa=fa)
     rlrules.canonical_construction(ctx, "C16.b", f)
+    rlrules.boundary_arguments(ctx, "C16.b")
 
 
 def reductions(ctx, tk):
